@@ -455,24 +455,25 @@ class Project:
         bad = []
         rootb = os.fsencode(self.root)
 
-        def read(p):
+        def read(p, lossy=False):
             full = os.path.join(rootb, p)
             if os.path.isdir(full):
                 out = b""
                 for name in sorted(os.listdir(full)):
-                    out += name + b"=" + read(os.path.join(p, name)) + b";"
+                    out += name + b"=" + read(os.path.join(p, name), lossy) + b";"
                 return out
             with open(full, "rb") as f:
-                return f.read()
+                return (b"%d" % len(f.read())) if lossy else f.read()
         for sp, cmd in self.cmds.items():
             toks = cmd.split()
-            if len(toks) < 2 or toks[0] != b"vcmd":
+            if len(toks) < 2 or toks[0] not in (b"vcmd", b"vlen"):
                 continue
+            lossy = toks[0] == b"vlen"
             ident, rest = toks[1], toks[2:]
             outs = rest[:rest.index(b"--")] if b"--" in rest else rest
             ins = rest[rest.index(b"--") + 1:] if b"--" in rest else []
             try:
-                payload = ident + b"(" + b"/".join(read(p) for p in ins) + b")"
+                payload = ident + b"(" + b"/".join(read(p, lossy) for p in ins) + b")"
                 for o in outs:
                     t = o.rstrip(b"/")
                     if o.endswith(b"/"):
